@@ -88,6 +88,13 @@ pub fn run(ctx: &mut Ctx) {
                         st.name_bindings.insert(b.to_string(), SItem::Int(1).to_item());
                     }
                     st.configuration.new_erc_name_probability = pnew;
+                    // interpreter flags and stack contents are not inputs of the generator
+                    st.quote_name = case % 4 == 1;
+                    st.send_name = case % 8 == 3;
+                    if case % 3 == 0 {
+                        st.name_stack.push("a".to_string());
+                        st.int_stack.push(7);
+                    }
                     // the documented leaf ranges do not depend on the random-number bounds
                     match case % 5 {
                         1 => {
